@@ -50,7 +50,7 @@ def body(case, acc):
             return None
         return Violation(f"C02:read-raises:{type(exc).__name__}", f"parsing own output raised {exc!r}", case)
     if got != want:
-        missing = sorted(want - got)[:2]
+        missing = sorted(want - got, key=repr)[:2]
         extra = sorted(got - want, key=repr)[:2]
         return Violation("C02:set-differs", f"missing {missing!r} extra {extra!r}", case)
     return None
